@@ -21,8 +21,8 @@ RULE = ("(i) exhaustive: every swizzle READ mask of length 1-4 (with repetition)
 ASSUMPTIONS = [
     "vf/interp.py implements the component-wise value semantics of the statement",
     "operands of one operation share a component type (mixed component types are C05's concern)",
-    "integer vector / integer scalar division is only compared where it is exact (the statement does not say how an "
-    "inexact integer component quotient rounds)",
+    "component-wise means the scalar operation applied per component: an integer vector divided by an integer scalar "
+    "truncates each component toward zero like integer scalars do (C01)",
 ]
 
 VEC_NOTES = ["vecmat-op", "swizzle-read", "swizzle-write", "element-write", "construct-vector", "construct-matrix",
